@@ -52,13 +52,13 @@ Print Assumptions C02_finalized_send_is_valid_and_exact.
 (** A late-locked send: coins are selected, the context completed and the outputs locked
     inside finalize_tx (by C01's [build_send] on the wallet's current outputs). The same six
     facts hold for the completed context [c'], whose inputs are spendable outputs of the
-    active account, whose amount is the one fixed at initiation and whose fee is the one
+    account the send was initiated from, whose amount is the one fixed at initiation and whose fee is the one
     announced at initiation. *)
 Theorem C02_finalized_late_locked_send_is_valid_and_exact :
   forall (chal : Z -> Z -> kmsg -> Z) (derive : N -> N -> Z) (sk pk esig : Type)
          (pk_eqb : pk -> pk -> bool) (pub : sk -> pk) (sign : sk -> emsg pk -> esig)
          (verify : pk -> emsg pk -> esig -> bool) (addr_sk : N -> N -> sk)
-         (w : wallet pk esig) (r : slate pk esig) (c : ctxrec pk) (la : late_args pk) (f : N)
+         (w : wallet pk esig) (r : slate pk esig) (c : ctxrec pk) (la : late_args) (f : N)
          (w' : wallet pk esig) (t : tx),
     lookup_ctx pk esig w (sl_id r) = Some c -> sl_state r = StS2 -> cx_late c = Some la ->
     cx_fee c = Some f -> f < FEE_MOD ->
@@ -68,7 +68,7 @@ Theorem C02_finalized_late_locked_send_is_valid_and_exact :
       cx_amount c' = cx_amount c /\ ctx_conserves pk c' f
       /\ (forall kv, In kv (cx_inputs c') ->
             exists o, In o (w_outs w) /\ o_key o = fst kv /\ o_value o = snd kv
-                      /\ o_root o = w_parent w /\ eligible o (w_tip w) (la_minconf la) = true)
+                      /\ o_root o = cx_parent c /\ eligible o (w_tip w) (la_minconf la) = true)
       /\ valid_tx chal t
       /\ in_commits t = map (commit_kv derive) (cx_inputs c')
       /\ (exists k, tx_kerns t = [k] /\ kernel_fee k = f)
@@ -118,7 +118,7 @@ Theorem C02_refused_late_locked_send_stays_cancellable :
   forall (chal : Z -> Z -> kmsg -> Z) (derive : N -> N -> Z) (sk pk esig : Type)
          (pk_eqb : pk -> pk -> bool) (pub : sk -> pk) (sign : sk -> emsg pk -> esig)
          (verify : pk -> emsg pk -> esig -> bool) (addr_sk : N -> N -> sk)
-         (w : wallet pk esig) (r : slate pk esig) (c : ctxrec pk) (la : late_args pk)
+         (w : wallet pk esig) (r : slate pk esig) (c : ctxrec pk) (la : late_args)
          (w' : wallet pk esig) (res : result tx),
     lookup_ctx pk esig w (sl_id r) = Some c -> cx_late c = Some la ->
     finalize_tx chal derive sk pk esig pk_eqb pub sign verify addr_sk w r = (w', res) ->
@@ -144,7 +144,7 @@ Theorem C02_contexts_from_C01_qualify :
     b_fee b < FEE_MOD
     /\ ctx_conserves pk
          (mkCtx parent x k x k (map (fun o => (o_key o, o_value o)) (b_inputs b))
-                (combine keys (b_changes b)) (b_amount b) (Some (b_fee b)) idx None) (b_fee b)
+                (combine keys (b_changes b)) (b_amount b) (Some (b_fee b)) idx None None) (b_fee b)
     /\ (NoDup (map o_key os) ->
         NoDup (map fst (map (fun o => (o_key o, o_value o)) (b_inputs b)))).
 Proof. exact build_send_ctx_conserves. Qed.
